@@ -293,7 +293,8 @@ theorem ref_processSlot (fc : FC) (a : Abs) (I : FI fc) (r : Ref fc a) (p : Root
 
 /-- **3.** `ProcessBlock` preserves the refinement relation and both sides return the same flag -/
 theorem ref_processBlock (fc : FC) (a : Abs) (I : FI fc) (r : Ref fc a) (p root : Root) (s j f : Nat)
-    (pr' : PA) (b : Bool) (e : fc.pa.processBlock p root s j f = some (pr', b)) :
+    (pr' : PA) (b : Bool) (e : fc.pa.processBlock p root s j f = some (pr', b))
+    (hv : aGet fc.pa.blockSlots root = none → a.refersTo root = false) :
     Ref { fc with pa := pr' } (a.processBlock p root s j f).1 ∧ (a.processBlock p root s j f).2 = b := by
   unfold Abs.processBlock
   rw [has_iff I.wf r, known_iff I.wf I.chain r, firstSlot_eq I.wf I.chain r]
@@ -315,7 +316,8 @@ theorem ref_processBlock (fc : FC) (a : Abs) (I : FI fc) (r : Ref fc a) (p root 
   · next h3 => cases e; rw [if_pos h3]; exact ⟨r, rfl⟩
   next h3 =>
   rw [if_neg h3]
-  simp only []
+  have hv' : a.refersTo root = false := hv (by cases hb : aGet fc.pa.blockSlots root with | none => rfl | some x => rw [hb] at h2; exact absurd rfl h2)
+  simp only [hv', Bool.false_eq_true, if_false]
   obtain ⟨w1, g1, bs1, s1⟩ := processSlot_spec fc.pa I.wf p s j f
   have r1 := ref_addSlots fc a I r p first s j f hp (by omega)
   obtain ⟨fi, nf, hfi, hnf, hnfr⟩ := first_index I.wf hp
@@ -413,7 +415,7 @@ theorem refEx_fi : FI refExFC := by
 /-- 3 on the example: block `2` at slot `1` on the anchor `(root 1, slot 0)`; three nodes afterwards -/
 example : Ref { refExFC with pa := refExPA2 } (refExAbs.processBlock 1 2 1 0 0).1 ∧
     (refExAbs.processBlock 1 2 1 0 0).2 = true :=
-  ref_processBlock refExFC refExAbs refEx_fi refEx_ref 1 2 1 0 0 refExPA2 true (by rw [refExFC_eq]; rfl)
+  ref_processBlock refExFC refExAbs refEx_fi refEx_ref 1 2 1 0 0 refExPA2 true (by rw [refExFC_eq]; rfl) (fun _ => by decide)
 
 example : (refExAbs.processBlock 1 2 1 0 0).1.nodes.map (·.ref) = [⟨0, 1⟩, ⟨1, 1⟩, ⟨1, 2⟩] ∧
     (refExAbs.processBlock 1 2 1 0 0).1.poisoned = false := by decide
